@@ -619,7 +619,14 @@ class Sym:
         return "Sym(%s)" % (s if len(s) < 60 else s[:57] + "...")
 
     def __format__(self, spec):
-        raise Unsupported("formatting a symbolic value outside the text-layer stub")
+        c = CTX
+        if c is not None and getattr(c, "text_layer", None) is not None:
+            return c.text_layer(self, spec)
+        # messages / attribute strings only: a placeholder (never parsed back)
+        return "<sym>"
+
+    def __str__(self):
+        return "<sym>"
 
     # -- ufunc method names (numpy object loops) -------------------------
     def sqrt(self):
